@@ -100,9 +100,14 @@ def _eta(t, node) -> int:
 
 
 def _node_key(t, node):
+    """Identifies a decay *in its topology*: the same particles may decay under another
+    interaction (parity conserving or not) in another topology of the reaction."""
+    from vp.gen.reactions import attached, intermediate_edges  # noqa: PLC0415
+
     par = parent_of(t.topology, node)
     a, b = children_of(t.topology, node)
-    return (t.states[par].particle.name, t.states[a].particle.name, t.states[b].particle.name)
+    structure = tuple(sorted(attached(t.topology, e) for e in intermediate_edges(t.topology)))
+    return (structure, t.states[par].particle.name, t.states[a].particle.name, t.states[b].particle.name)
 
 
 def _evaluate(model, exprs, values_by_name, n_points):
@@ -304,9 +309,9 @@ def run_case(desc) -> Result:  # noqa: C901, PLR0911, PLR0912, PLR0914, PLR0915
         lam = l1 - l2
         total = 0j
         for key, aval in couplings.items():
-            if key[:3] != _node_key(t, node):
+            if key[:4] != _node_key(t, node):
                 continue
-            ell, s = key[3], sp.Rational(key[4])
+            ell, s = key[4], sp.Rational(key[5])
             from fractions import Fraction  # noqa: PLC0415
 
             sfrac = Fraction(int(s.p), int(s.q))
